@@ -357,6 +357,12 @@ def freq_shift(z, /, shift):
         el = tuple(
             slice(None) if n == 1 else i for i, n in zip(it.multi_index, ft.shape)
         )
+        # The bin count comes out of a few rounded operations: a whole number
+        # of bins may be a few ulps off, which must not cost an extra bin.
+        a = float(a)
+        if abs(a - round(a)) <= 4 * np.finfo(float).eps * abs(a):
+            a = round(a)
+
         if a < 0:
             a = int(np.floor(a))
             ix = (np.s_[a:],) + el
